@@ -10,7 +10,7 @@ FUNCS_NAMED = [("fn", "1"), ("fn", "10"), ("fn1", "0")]   # fn#10 has no local v
 FUNCS_DEFAULT = [("dfn", "1"), ("dfn1", "0"), ("dg", "2")]
 NARGS = 3
 VALKEYS = ["s0", "s1", "num", "none", "k3", "k6", "lst", "dct", "df", "arr", "k3b", "true", "flt", "part",
-           "part2", "arr6", "df6"]
+           "part2", "arr6", "df6", "exc", "exc"]
 OVERRIDES = [None, None, None, "ovr/shared", "ovr/other"]
 META_KEYS = ["log", "k2"]
 
@@ -30,7 +30,15 @@ def values():
         # partitions are created afresh for every memoize (storing one annotates the object)
         "part": lambda: _partition({"a": 1, "b": "x" * 10, "c": [1.5, None]}),
         "part2": lambda: _partition({"a": 1, "z": "other"}),
+        # a recorded failure (stored like a value: calls that failed alike share the stored object)
+        "exc": _failure(),
     }
+
+
+def _failure():
+    from twosigma.memento.exception import MementoException
+
+    return MementoException("python::builtins:ValueError", "bad input", "Traceback (most recent call last):\n  ...\nValueError: bad input\n")
 
 
 def _partition(d):
